@@ -1,6 +1,7 @@
 //! C09 — notations defined by expansion compile like their hand-expanded form (structural clauses).
 use crate::model::{self, tok, FnInfo, Model};
 use crate::report::Ctx;
+use crate::rules::util::*;
 use serde_json::json;
 use std::collections::BTreeSet;
 
@@ -297,20 +298,106 @@ Not applicable: the equivalence sugared = expanded itself, independence from the
     constraint_pairs(m, ctx, "C09.sym");
 
     // ---------------- splice ----------------
+    // The SEQUENCE / SET arm of link_components_of_notation is evaluated on a referencing type { own, COMPONENTS OF R }
+    // and a referenced type R { r1, r2, ..., e1 } (SEQUENCE and SET): which members arrive, in which order, and what
+    // happens to the referencing type's own extension index.
     if let Some(f) = m.fns.iter().find(|f| f.name == "link_components_of_notation" && f.self_ty.as_deref() == Some("ASN1Type")) {
-        let b = tok(&f.block);
-        ctx.oblige("C09.splice", "position", true);
-        if b.contains("s.members.push(member.clone())") && !b.contains("s.members.insert(") && !b.contains("splice(") {
-            ctx.violate("C09.splice", "appended-at-end", &f.file, f.line,
-                "COMPONENTS OF members are appended after the type's own components (members.push) instead of being spliced at the position of the notation: the component order differs from the hand-expanded type (and, with an extension marker, inherited root components land among the additions)");
-        }
-        ctx.oblige("C09.splice", "root-only", true);
-        if !b.contains("if index<linked_seq.extensible.unwrap_or(usize::MAX)") {
-            ctx.violate("C09.splice", "root-only", &f.file, f.line, "COMPONENTS OF takes only the root components of the referenced type (X.680 §25.5): the index test against the referenced type's extension index is missing");
-        }
-        ctx.oblige("C09.splice", "referenced-set", true);
-        if !(b.contains("ASN1Type::Sequence(linked_seq)|ASN1Type::Set(linked_seq)") || b.contains("ASN1Type::Set(linked_seq)|ASN1Type::Sequence(linked_seq)")) {
-            ctx.violate("C09.splice", "referenced-set", &f.file, f.line, "COMPONENTS OF must accept a referenced SET as well as a SEQUENCE");
+        use crate::eval::{Env, Evaluator, Val};
+        use std::collections::BTreeMap;
+        ctx.func(&f.key);
+        let consts = const_resolver(m);
+        let member = |n: &str| {
+            let mut fm = BTreeMap::new();
+            fm.insert("name".to_string(), Val::Str(n.into()));
+            fm.insert("ty".to_string(), Val::Ctor("Boolean".into(), vec![Val::Opaque("b".into())], BTreeMap::new()));
+            Val::Ctor("SequenceOrSetMember".into(), vec![], fm)
+        };
+        let seq = |members: &[&str], ext: Option<usize>, comps: &[&str]| {
+            let mut fm = BTreeMap::new();
+            fm.insert("members".to_string(), Val::List(members.iter().map(|n| member(n)).collect()));
+            fm.insert("extensible".to_string(), ext.map(|e| Val::some(Val::int(e as i128))).unwrap_or(Val::none()));
+            fm.insert("components_of".to_string(), Val::List(comps.iter().map(|c| Val::Str(c.to_string())).collect()));
+            fm.insert("constraints".to_string(), Val::List(vec![]));
+            Val::Ctor("SequenceOrSet".into(), vec![], fm)
+        };
+        let top = model::matches_in(&f.block).into_iter().find(|mt| tok(&mt.expr) == "self");
+        let params: Vec<String> = f.sig.inputs.iter().filter_map(|a| match a { syn::FnArg::Typed(t) => Some(tok(&t.pat)), _ => None }).collect();
+        match top {
+            None => ctx.fail_closed("C09.splice", "link_components_of_notation has no `match self`"),
+            Some(mt) => {
+                for (ref_kind, own_ext) in [("Sequence", None), ("Set", None), ("Sequence", Some(1usize)), ("Set", Some(1usize))] {
+                    let key = format!("referenced {} own-marker={:?}", ref_kind, own_ext);
+                    ctx.oblige("C09.splice", &key, true);
+                    let rk = ref_kind.to_string();
+                    let referenced = seq(&["r1", "r2", "e1"], Some(2), &[]);
+                    let hook = move |_: &Evaluator, name: &str, a: &[Val]| -> Option<Result<Val, String>> {
+                        match name {
+                            ".get" if matches!(a.first(), Some(Val::Opaque(s)) if s == "tlds") => {
+                                let mut t = BTreeMap::new();
+                                t.insert("ty".to_string(), Val::Ctor(rk.clone(), vec![referenced.clone()], BTreeMap::new()));
+                                t.insert("name".to_string(), Val::Str("R".into()));
+                                Some(Ok(Val::some(Val::Ctor("Type".into(), vec![Val::Ctor("ToplevelTypeDefinition".into(), vec![], t)], BTreeMap::new()))))
+                            }
+                            ".link_components_of_notation" => Some(Ok(Val::Bool(false))),
+                            ".clone" | ".to_owned" if a.len() == 1 => Some(Ok(a[0].clone())),
+                            _ => None,
+                        }
+                    };
+                    let ev = Evaluator { consts: &consts, call_hook: &hook, inline: None };
+                    let own = seq(&["own1"], own_ext, &["R"]);
+                    let selfv = Val::Ctor("Sequence".into(), vec![own], BTreeMap::new());
+                    let mut env0 = Env::new();
+                    env0.insert(params.first().cloned().unwrap_or("tlds".into()), Val::Opaque("tlds".into()));
+                    let r = ev.select_arm(&mt, &selfv, &env0).and_then(|(i, mut e2)| {
+                        let bound: Vec<String> = {
+                            let mut ids = vec![];
+                            model::collect_idents(&quote::ToTokens::to_token_stream(&mt.arms[i].pat), &mut ids);
+                            ids.into_iter().filter(|x| x.chars().next().map(|c| c.is_lowercase()).unwrap_or(false)).collect()
+                        };
+                        ev.eval(&mt.arms[i].body, &mut e2)?;
+                        bound.iter().filter_map(|b| e2.get(b).cloned()).next().ok_or_else(|| "the arm binds no payload".to_string())
+                    });
+                    match r {
+                        Ok(Val::Ctor(_, _, fm)) => {
+                            let names: Vec<String> = match fm.get("members") {
+                                Some(Val::List(l)) => l.iter().map(|v| match v { Val::Ctor(_, _, f2) => match f2.get("name") { Some(Val::Str(n)) => n.clone(), _ => "?".into() }, _ => "?".into() }).collect(),
+                                _ => vec![],
+                            };
+                            let ext = match fm.get("extensible") {
+                                Some(Val::Ctor(sn, p, _)) if sn == "Some" => match p.first() { Some(Val::Int { v, .. }) => Some(*v as usize), _ => None },
+                                _ => None,
+                            };
+                            if !names.contains(&"r1".to_string()) || !names.contains(&"r2".to_string()) {
+                                ctx.violate("C09.splice", if ref_kind == "Set" { "referenced-set" } else { "root-components-copied" }, &f.file, f.line,
+                                    &format!("COMPONENTS OF a {} {{ r1, r2, ..., e1 }}: the referencing type ends up with {:?}; both root components must be inherited{}", ref_kind.to_uppercase(), names, if ref_kind == "Set" { " (a referenced SET is as valid as a SEQUENCE)" } else { "" }));
+                                continue;
+                            }
+                            if names.contains(&"e1".to_string()) {
+                                ctx.violate("C09.splice", "root-only", &f.file, f.line, &format!("COMPONENTS OF takes only the root components of the referenced type (X.680 25.5): got {:?}, e1 is an extension addition of the referenced type", names));
+                            }
+                            let pos = |n: &str| names.iter().position(|x| x == n);
+                            if pos("r1") > pos("r2") || names.iter().filter(|x| *x == "r1").count() != 1 {
+                                ctx.violate("C09.splice", "inherited-order", &f.file, f.line, &format!("inherited components must arrive once each and in the order of the referenced type: {:?}", names));
+                            }
+                            // own1 stands *after* the notation in the modelled type { COMPONENTS OF R, own1 }: hand-expanded order is r1, r2, own1
+                            if pos("own1") < pos("r1") {
+                                ctx.violate("C09.splice", "appended-at-end", &f.file, f.line,
+                                    "COMPONENTS OF members are appended after the type's own components (members.push) instead of being spliced at the position of the notation: the component order differs from the hand-expanded type (and, with an extension marker, inherited root components land among the additions)");
+                            }
+                            if let Some(e0) = own_ext {
+                                ctx.oblige("C09.splice", &format!("{}:marker-moves", key), true);
+                                if ext != Some(e0 + 2) {
+                                    ctx.violate("C09.splice", "marker-index", &f.file, f.line, &format!("the referencing type's first-extension index must move by the number of inherited root components (from {} to {}), got {:?}", e0, e0 + 2, ext));
+                                }
+                            } else if ext.is_some() {
+                                ctx.violate("C09.splice", "marker-index", &f.file, f.line, &format!("a referencing type without an extension marker must not get one: {:?}", ext));
+                            }
+                        }
+                        Ok(o) => ctx.fail_closed("C09.splice", &format!("[{}]: payload became {}", key, o.show().chars().take(120).collect::<String>())),
+                        Err(e) => ctx.fail_closed("C09.splice", &format!("[{}]: {}", key, e)),
+                    }
+                }
+            }
         }
     } else {
         ctx.fail_closed("C09.splice", "anchor not found: link_components_of_notation");
